@@ -14,9 +14,13 @@ ASSUMPTIONS = ['exact real arithmetic; loss of orthogonality with cond(A) is out
 class QR(Lin):
     def __init__(s, T, n, strat='MGSR', orth=True):
         a = Buf('a', T, n * n); q = Buf('q', T, n * n, 'out'); r = Buf('r', T, n * n, 'out'); tt = f'Tensor<{T},{n},{n}>'
-        k = f'{tt} A(a), Q, R; qr<QRCompType::{strat}>(A,Q,R); ' + copy_out('Q', 'q', n * n) + ' ' + copy_out('R', 'r', n * n)
-        Lin.__init__(s, f'qr_{SHORT[T]}_{n}_{strat}', T, [a, q, r], k, f'qr<{strat}> {tt}')
-        s.n = n; s.orth = orth; s.timeout = 30
+        piv = strat == 'MGSRPiv'; args = [a, q, r]
+        pd = f'Tensor<size_t,{n}> P;' if piv else ''; pc = f'for(int q_=0;q_<{n};++q_) p[q_]=(long)P.data()[q_];' if piv else ''
+        if piv: args.append(Buf('p', 'long', n, 'out'))
+        k = f'{tt} A(a), Q, R; {pd} qr<QRCompType::{strat}>(A,Q,R{",P" if piv else ""}); ' + copy_out('Q', 'q', n * n) + ' ' + copy_out('R', 'r', n * n) + ' ' + pc
+        Lin.__init__(s, f'qr_{SHORT[T]}_{n}_{strat}', T, args, k, f'qr<{strat}> {tt}')
+        s.n = n; s.orth = orth; s.timeout = 30; s.piv = piv
+        if piv: s.max_paths = 60
 
     def path_obligations(s, mod, kp, stats):
         if kp.status != 'ok': return [Obl('status', z3.BoolVal(False), kp.pc, note='path ended with ' + kp.status)]
@@ -28,7 +32,14 @@ class QR(Lin):
         QRm = matmul_fm(dom, Q, R, w)
         Qt = FM(dom, [[Q[j, i] for j in range(n)] for i in range(n)]); QtQ = matmul_fm(dom, Qt, Q, w)
         dom.nameall = na
-        obls += s.eqs(kp, [(f'QR[{i},{j}]', QRm[i, j], A[i, j]) for i in range(n) for j in range(n)])
+        rows = A.rows
+        if s.piv:     # row pivot as in the pivoted LU: (Q*R)[i,:] = A[P(i),:]
+            from .c11 import _sel
+            rd = Reader(dom); pa = [x for x in s.args if x.name == 'p'][0]
+            PB = [bv(as_bits(rd.elem(kp.bufs['p'], pa, i), 64), 64) for i in range(n)]
+            obls.append(Obl('P is a bijection', z3.And([z3.ULT(x, z3.BitVecVal(n, 64)) for x in PB] + ([z3.Distinct(*PB)] if n > 1 else [])), kp.pc))
+            rows = [[_sel([(PB[i] == k_, A[k_, j]) for k_ in range(n)], dom, w) for j in range(n)] for i in range(n)]
+        obls += s.eqs(kp, [(f'QR[{i},{j}]', QRm[i, j], rows[i][j]) for i in range(n) for j in range(n)])
         if s.orth: obls += s.eqs(kp, [(f'QtQ[{i},{j}]', QtQ[i, j], cst(dom, w, 1 if i == j else 0)) for i in range(n) for j in range(i, n)])
         return obls
 
@@ -36,6 +47,10 @@ class QR(Lin):
         m = s.nat_mats(inp, rk); n = s.n; A = m['a'].reshape(n, n); Q = m['q'].reshape(n, n); R = m['r'].reshape(n, n)
         if not np.all(np.isfinite(A)) or np.linalg.cond(A) > 1e3: return None
         bad = []
+        if s.piv:
+            P = m['p']
+            if sorted(P.tolist()) != list(range(n)): return 'P is not a bijection'
+            A = A[P, :]
         if np.abs(np.tril(R, -1)).max() != 0: bad.append('R not exactly upper triangular')
         sc = max(1.0, np.abs(A).max())
         if np.abs(Q @ R - A).max() > s.tol() * 100 * sc: bad.append(f'|Q*R-A| = {np.abs(Q @ R - A).max():.3g}')
@@ -67,11 +82,12 @@ def cases(tier, cfg, seed):
         for n in ((1, 2, 3) if tier == 'quick' else (1, 2, 3, 4, 5, 6, 8)):
             out.append(QR(T, n, 'MGSR', orth=(n <= (2 if tier == 'quick' else 4))))
         for n in ((2,) if tier == 'quick' else (2, 3)): out.append(DetQR(T, n))
+        for n in ((2,) if tier == 'quick' else (2, 3)): out.append(QR(T, n, 'MGSRPiv', orth=(n <= 2)))
     if tier == 'quick': out.append(QR('float', 3, 'MGSR', orth=False))
     return out
 
 
 def cfgs(tier): return main_cfgs(tier)
-def bounds(tier): return {'R_zeros_and_QR=A': 'n <= 4 (quick) / 8', 'QtQ=I': 'n <= 2 (quick) / 4 attempted', 'outside': 'pivoted QR (MGSRPiv), Householder; orthogonality for n >= 5; cond-dependent bounds'}
+def bounds(tier): return {'R_zeros_and_QR=A': 'n <= 4 (quick) / 8', 'QtQ=I': 'n <= 2 (quick) / 4 attempted', 'pivoted': 'MGSRPiv n = 2 (quick) / 3, all pivot paths', 'outside': 'Householder (not implemented by the library); orthogonality for n >= 5; cond-dependent bounds'}
 def mandatory(case_id, cfg_key): return False
 def on_compile_fail(case, cfg, cf): return 'broken'
